@@ -79,14 +79,16 @@ prop("C06", engine="eval", prefixes=["C06."], level="model_checking",
                         ("inherit", dict(_worker="make_inh_trace", recalc=True)),
                         ("dyn", dict(_worker="make_dyn_trace", recalc=True)),
                         # chains through several nested uncached cells
-                        ("value", dict(gen=dict(p_uncached=0.55, p_catch=0.0)))],
-     quick=dict(traces=168, nops=30), thorough=dict(traces=4200, nops=45))
+                        ("value", dict(gen=dict(p_uncached=0.55, p_catch=0.0, p_chain=0.9))),
+                        ("value", dict(gen=dict(p_uncached=0.4, p_catch=0.0, p_chain=0.9), recalc=True))],
+     quick=dict(traces=192, nops=30), thorough=dict(traces=4800, nops=45))
 prop("C08", engine="eval", prefixes=["C08."], level="model_checking",
      mc=("MxEval", "MC_MxEval_quick.cfg", "MC_MxEval_thorough.cfg"),
      jobs=lambda tier: [("eval", dict()), ("fail", dict(gen=dict(p_raise=0.15, p_catch=0.15))),
                         ("dyn", dict(_worker="make_dyn_trace")),
-                        ("inherit", dict(_worker="make_inh_trace"))],
-     quick=dict(traces=128, nops=25), thorough=dict(traces=3200, nops=40))
+                        ("inherit", dict(_worker="make_inh_trace")),
+                        ("eval", dict(gen=dict(p_uncached=0.55, p_chain=0.9)))],
+     quick=dict(traces=160, nops=25), thorough=dict(traces=4000, nops=40))
 prop("C09", engine="eval", prefixes=["C09."], level="model_checking",
      mc=("MxEval", "MC_MxEval_quick.cfg", "MC_MxEval_thorough.cfg"),
      mbt_extra={"quick": ["MBT_MxEval_cfe.cfg"], "thorough": ["MBT_MxEval_cfe.cfg", "MBT_MxEval_cee.cfg"]},
